@@ -136,7 +136,7 @@ def tokenize(s, flags=frozenset()):
                 while j < n and s[j] in ws:
                     j += 1
                 before_id = j < n and s[j].isascii() and (s[j].isalpha() or s[j] == "_")
-                after_operand = bool(toks) and (toks[-1][0] == "num" or toks[-1] == ("op", ")"))
+                after_operand = bool(toks) and (toks[-1][0] == "num" or toks[-1] in (("op", ")"), ("op", "post++"), ("op", "post--")))
                 if toks and toks[-1][0] == "id":
                     toks.append(("op", "post" + c + c))
                     i += 2
